@@ -77,6 +77,11 @@ impl<DataInterfaceType: DeduplicationDataInterface> FileDeduper<DataInterfaceTyp
         &mut self,
         chunks: &[Chunk],
     ) -> Result<DeduplicationMetrics, DataInterfaceType::ErrorType> {
+        #[cfg(xet_verif)]
+        utils::verif_hooks::event("dedup.process_chunks.begin", || {
+            chunks.iter().map(|c| format!("{}:{}", c.hash.hex(), c.data.len())).collect::<Vec<_>>().join(",")
+        });
+
         // track the different deduplication statistics.
         let mut dedup_metrics = DeduplicationMetrics::default();
 
@@ -247,6 +252,9 @@ impl<DataInterfaceType: DeduplicationDataInterface> FileDeduper<DataInterfaceTyp
 
         self.deduplication_metrics.merge_in(&dedup_metrics);
         self.chunk_hashes.extend(chunks.iter().map(|c| (c.hash, c.data.len())));
+
+        #[cfg(xet_verif)]
+        utils::verif_hooks::event("dedup.process_chunks.end", String::new);
 
         Ok(dedup_metrics)
     }
